@@ -2559,3 +2559,7 @@ def c16_dupname_cases(seed, tier):
 
 _extend("C16", c16_dupname_cases, "plus documents whose tests share one label (or have none) with a later one broken at its end")
 _extend("C09", lambda seed, tier: [dict(c, id="c09-" + c["id"]) for c in c16_dupname_cases(seed, tier)], "plus .dig documents with equally named tests, a later one broken")
+
+
+for _p in ("C10", "C05", "C20", "C08", "C02"):
+    _extend(_p, (lambda pref: (lambda seed, tier: more_name_cases(pref)))(_p.lower()), "plus the name shapes (B next to an input B_out, two C in a row, names that spell an expression)")
